@@ -104,6 +104,8 @@ package tls
 //@   ensures result != nil && fresh(result) && result.PublicKey == nil
 //@   terminates
 
+// (math/big setters may change the ghost relations bigEq / bigStr of bigint.contracts, hence the
+// `modifies ghost...` of these loggers and of their callers; no real memory is written.)
 // Finite-field DH parameters of the ServerKeyExchange: every group element the key agreement
 // holds is logged as a fresh copy (never an alias of the live secret), absent ones stay nil.
 // The client half is not populated by the server-side logger and vice versa.
@@ -114,6 +116,7 @@ package tls
 //@   ensures  fresh(result.Prime) && fresh(result.Generator) && fresh(result.ServerPublic) && fresh(result.ServerPrivate)
 //@   ensures  result.ServerPrivate != nil ==> ka.yServer != nil && ka.yOurs != nil && ka.xOurs != nil
 //@   ensures  result.ClientPublic == nil && result.ClientPrivate == nil && result.SessionKey == nil
+//@   modifies ghost.bigEq, ghost.bigStr
 //@   terminates
 
 //@ func (*dheKeyAgreement).ClientDHParams
@@ -123,6 +126,7 @@ package tls
 //@   ensures  fresh(result.Prime) && fresh(result.Generator) && fresh(result.ClientPublic) && fresh(result.ClientPrivate)
 //@   ensures  result.ClientPrivate != nil ==> ka.yClient != nil && ka.yOurs != nil && ka.xOurs != nil
 //@   ensures  result.ServerPublic == nil && result.ServerPrivate == nil && result.SessionKey == nil
+//@   modifies ghost.bigEq, ghost.bigStr
 //@   terminates
 
 // ECDHE parameters. The concrete share is produced by the ecdheParameters implementation
@@ -167,6 +171,59 @@ package tls
 //@   ensures  result == X25519
 //@   terminates
 
+// ---------------------------------------------------------------- auth.go / key_schedule.go / key_agreement.go:
+// where the logged SignatureAndHashAlgorithm of an ECDHE ServerKeyExchange comes from
+
+// "typeAndHashFromSignatureScheme returns the corresponding signature type and crypto.Hash for
+// a given TLS SignatureScheme" (RFC 8446 4.2.3 code points): internal type code and crypto.Hash
+// number - neither is a wire value (signaturePKCS1v15.. start at 227, crypto.SHA256 is 5).
+//@ pred thsRSA(a) = a == PKCS1WithSHA1 || a == PKCS1WithSHA256 || a == PKCS1WithSHA384 || a == PKCS1WithSHA512
+//@ pred thsPSS(a) = a == PSSWithSHA256 || a == PSSWithSHA384 || a == PSSWithSHA512
+//@ pred thsEC(a) = a == ECDSAWithSHA1 || a == ECDSAWithP256AndSHA256 || a == ECDSAWithP384AndSHA384 || a == ECDSAWithP521AndSHA512
+//@ func typeAndHashFromSignatureScheme
+//@   ensures err == nil <==> (thsRSA(signatureAlgorithm) || thsPSS(signatureAlgorithm) || thsEC(signatureAlgorithm) || signatureAlgorithm == Ed25519)
+//@   ensures thsRSA(signatureAlgorithm) ==> sigType == signaturePKCS1v15
+//@   ensures thsPSS(signatureAlgorithm) ==> sigType == signatureRSAPSS
+//@   ensures thsEC(signatureAlgorithm) ==> sigType == signatureECDSA
+//@   ensures signatureAlgorithm == Ed25519 ==> sigType == signatureEd25519 && hash == directSigning
+//@   ensures signatureAlgorithm == PKCS1WithSHA1 || signatureAlgorithm == ECDSAWithSHA1 ==> hash == crypto.SHA1
+//@   ensures signatureAlgorithm == PKCS1WithSHA256 || signatureAlgorithm == PSSWithSHA256 || signatureAlgorithm == ECDSAWithP256AndSHA256 ==> hash == crypto.SHA256
+//@   ensures signatureAlgorithm == PKCS1WithSHA384 || signatureAlgorithm == PSSWithSHA384 || signatureAlgorithm == ECDSAWithP384AndSHA384 ==> hash == crypto.SHA384
+//@   ensures signatureAlgorithm == PKCS1WithSHA512 || signatureAlgorithm == PSSWithSHA512 || signatureAlgorithm == ECDSAWithP521AndSHA512 ==> hash == crypto.SHA512
+//@   ensures err != nil ==> sigType == 0 && hash == 0
+//@   modifies nothing
+//@   terminates
+
+//@ func curveForCurveID
+//@   ensures result1 <==> (id == CurveP256 || id == CurveP384 || id == CurveP521)
+//@   ensures result1 ==> result0 != nil
+//@   ensures !result1 ==> result0 == nil
+//@   modifies nothing
+//@   terminates
+
+// A fresh ephemeral share for the curve, or an error; never both, never neither.
+//@ func generateECDHEParameters
+//@   requires rand != nil
+//@   ensures  result1 == nil ==> result0 != nil
+//@   ensures  result1 != nil ==> result0 == nil
+//@   modifies nothing
+//@   terminates
+
+// C28 "logged signature and hash algorithms are those named on the wire": after a successful
+// processServerKeyExchange of a TLS 1.2 ECDHE exchange the SignatureAndHashAlgorithm recorded for
+// the log (auth.sh, copied verbatim by Signature()) is the pair of bytes that follows the
+// ServerECDHParams in the message (RFC 5246 7.4.3: ServerECDHParams = curve_type(1) named_curve(2)
+// point<1..2^8-1>, then SignatureAndHashAlgorithm {hash, signature}); the recorded signature is
+// the signature bytes of the message. DEFECT D3 (S12), REPAIRED in /repo: [sigalg] failed while the
+// code stored the internal type code and uint8(crypto.Hash) (wire {4,1} was recorded as {5,227}).
+// (objects of different Go types cannot overlap; govc's memory model is untyped, so the
+// distinctness of the arguments is stated with sep)
+//@ global errServerKeyExchange != nil
+//@ pred skxPub(skx) = int(skx.key[3])
+// (the contract of (*ecdheKeyAgreement).processServerKeyExchange - clauses [params], [raw] and the
+// C28 clause on the recorded SignatureAndHashAlgorithm - now lives in zz_verif_contracts_tlsauth.go,
+// which also needs the function for C27 / C32; the preds and the global above are shared)
+
 // ---------------------------------------------------------------- tls_handshake.go: key exchange messages
 
 //@ pred kaDHE(ka) = unboxed(ka, *dheKeyAgreement)
@@ -192,6 +249,7 @@ package tls
 //@   ensures  typeis(ka, *ecdheKeyAgreement) && typeis(kaECDHE(ka).auth, *signedKeyAgreement) ==> result.Signature != nil && same(result.Signature.Raw, authSigned(kaECDHE(ka).auth).raw) && result.Signature.Valid == authSigned(kaECDHE(ka).auth).valid
 //@   ensures  typeis(ka, *ecdheKeyAgreement) && typeis(kaECDHE(ka).auth, *signedKeyAgreement) && authSigned(kaECDHE(ka).auth).version >= VersionTLS12 ==> result.Signature.SigHashExtension != nil && result.Signature.SigHashExtension.Signature == authSigned(kaECDHE(ka).auth).sh.Signature && result.Signature.SigHashExtension.Hash == authSigned(kaECDHE(ka).auth).sh.Hash
 //@   ensures  typeis(ka, *dheKeyAgreement) && typeis(kaDHE(ka).auth, *signedKeyAgreement) && authSigned(kaDHE(ka).auth).version >= VersionTLS12 ==> result.Signature.SigHashExtension != nil && result.Signature.SigHashExtension.Signature == authSigned(kaDHE(ka).auth).sh.Signature && result.Signature.SigHashExtension.Hash == authSigned(kaDHE(ka).auth).sh.Hash
+//@   modifies ghost.bigEq, ghost.bigStr
 //@   terminates
 
 // ClientKeyExchange as logged (C28): Raw is the complete message; for RSA the encrypted
@@ -210,6 +268,7 @@ package tls
 //@   ensures  typeis(ka, *dheKeyAgreement) ==> result.DHParams != nil && result.RSAParams == nil && result.ECDHParams == nil
 //@   ensures  typeis(ka, *ecdheKeyAgreement) ==> result.ECDHParams != nil && result.ECDHParams.ClientPublic != nil && result.RSAParams == nil && result.DHParams == nil
 //@   ensures  !typeis(ka, *rsaKeyAgreement) && !typeis(ka, *dheKeyAgreement) && !typeis(ka, *ecdheKeyAgreement) ==> result.RSAParams == nil && result.DHParams == nil && result.ECDHParams == nil
+//@   modifies ghost.bigEq, ghost.bigStr
 //@   terminates
 
 // addParsed attaches the parsed certificates to the raw ones logged by MakeLog: leaf to
@@ -245,8 +304,12 @@ package tls
 //@ pred chPoints(l, m) = len(l.SupportedPoints) == len(m.supportedPoints) && forall(k, 0, len(m.supportedPoints), l.SupportedPoints[k] == PointFormat(m.supportedPoints[k]))
 //@ pred chVersions(l, m) = len(l.SupportedVersions) == len(m.supportedVersions) && forall(k, 0, len(m.supportedVersions), l.SupportedVersions[k] == TLSVersion(m.supportedVersions[k]))
 //@ pred chAlpn(l, m) = len(l.AlpnProtocols) == len(m.alpnProtocols) && forall(k, 0, len(m.alpnProtocols), l.AlpnProtocols[k] == m.alpnProtocols[k])
-// what the code really logs for a non-empty ticket: the length, but no bytes
-//@ pred chTicketActual(l, m) = (len(m.sessionTicket) > 0 ==> l.SessionTicket != nil && fresh(l.SessionTicket) && len(l.SessionTicket.Value) == 0 && l.SessionTicket.Length == len(m.sessionTicket) && l.SessionTicket.LifetimeHint == 0) && (len(m.sessionTicket) == 0 ==> l.SessionTicket == nil)
+// session ticket record (C28 "logged byte strings are complete"): a non-empty ticket is logged as
+// a fresh record whose Value has the ticket's length and whose Length is that length; none otherwise.
+// DEFECT D1 = S11, REPAIRED in /repo 9c8899b: the bytes were copied into a nil slice, Value stayed
+// empty while Length was right - `len(Value) == len(ticket)` is the conjunct that failed. (Byte-wise
+// equality of Value is not stated: it would have to survive loops 5 and 6, see notes L4.)
+//@ pred chTicketRec(l, m) = (len(m.sessionTicket) > 0 ==> l.SessionTicket != nil && fresh(l.SessionTicket) && len(l.SessionTicket.Value) == len(m.sessionTicket) && l.SessionTicket.Length == len(m.sessionTicket) && l.SessionTicket.LifetimeHint == 0) && (len(m.sessionTicket) == 0 ==> l.SessionTicket == nil)
 // everything the log points to was allocated by this call (no aliasing with the message)
 //@ pred chFresh(l) = fresh(l.Random) && fresh(l.SessionID) && fresh(l.CipherSuites) && fresh(l.CompressionMethods) && fresh(l.SupportedCurves) && fresh(l.SupportedPoints)
 
@@ -254,44 +317,96 @@ package tls
 // points to existed before the call, so nothing allocated by MakeLog can coincide with them.
 //@ pred chMsgAllocated(m) = allocated(m.random) && allocated(m.sessionId) && allocated(m.cipherSuites) && allocated(m.compressionMethods) && allocated(m.supportedCurves) && allocated(m.supportedPoints) && allocated(m.supportedVersions) && allocated(m.sessionTicket) && allocated(m.supportedSignatureAlgorithms) && allocated(m.alpnProtocols) && allocated(m.unknownExtensions)
 
+// lengths of the message slices that the last loop (which havocs every slice header) must keep
+//@ pred chLens(m) = len(m.secureRenegotiation) == old(len(m.secureRenegotiation)) && len(m.sessionTicket) == old(len(m.sessionTicket)) && len(m.supportedSignatureAlgorithms) == old(len(m.supportedSignatureAlgorithms))
+// every logged list has the length of the list in the message
+//@ pred chLen(l, m) = len(l.Random) == len(m.random) && len(l.SessionID) == len(m.sessionId) && len(l.CipherSuites) == len(m.cipherSuites) && len(l.CompressionMethods) == len(m.compressionMethods) && len(l.SupportedCurves) == len(m.supportedCurves) && len(l.SupportedPoints) == len(m.supportedPoints) && len(l.SupportedVersions) == len(m.supportedVersions) && len(l.AlpnProtocols) == len(m.alpnProtocols) && len(l.UnknownExtensions) == len(m.unknownExtensions)
+
+// VERIFIED: (a) at return: version, flags, server name, the length of every list, the session
+// ticket record (present iff a ticket is sent, Value and Length of the ticket's length), bounds of the
+// signature list, freshness;
+// (b) as loop-head invariants: the CONTENT equalities - Random, SessionID (chRandom) at the heads
+// of loops 2, 3, 5; CompressionMethods (chComp) at loops 3, 5; SupportedPoints (chPoints) at
+// loop 5; Version, CipherSuites, SupportedCurves (chVers, chSuites, chCurves) at loop 4 - i.e.
+// each list is proved equal to the message's once it has been filled.
+// NOT VERIFIED (engine, see /verif/notes/tlslog.md L4): the same content equalities AT RETURN.
+// The last loop stores through a slice header it loads itself (ch.UnknownExtensions[i] = ..),
+// govc then forgets every slice header at its head, and neither z3 nor cvc5 re-proves the
+// quantified content facts across that loop within any practical time (each step is proved in
+// isolation in 1-7 s, the conjunction times out at 90 s). The clauses that belong here are
+//   ensures chRandom(result, m) && chSuites(result, m) && chComp(result, m) && chCurves(result, m)
+//   ensures chPoints(result, m) && chAlpn(result, m) && (len(m.supportedVersions) > 0 ==> chVersions(result, m))
+// (kept as text, not as //@ lines; pinning the headers with atentry() in loop 6 was tried: the
+// content clauses at return still time out in z3 and cvc5). No code after the heads named in (b)
+// writes a byte or uint16 cell of an existing array or one of these headers (inspection), so they
+// do hold at return.
+// Observation D4 (not a violation of C28, which speaks of the POPULATED parts of the log): the log
+// fields ExtendedMasterSecret, ExtendedRandom and SctEnabled are never filled although the message
+// has extendedMasterSecret / extendedRandom / sctEnabled; no clause is stated for them.
 //@ func (*clientHelloMsg).MakeLog
 //@   requires m != nil && chMsgAllocated(m)
 //@   loop 1 invariant chVers(ch, m) && forall(k, 0, it, ch.CipherSuites[k] == CipherSuiteID(m.cipherSuites[k]))
 //@   loop 2 invariant chRandom(ch, m) && forall(k, 0, it, ch.CompressionMethods[k] == CompressionMethod(m.compressionMethods[k]))
 //@   loop 3 invariant chRandom(ch, m) && chComp(ch, m) && forall(k, 0, it, ch.SupportedPoints[k] == PointFormat(m.supportedPoints[k]))
 //@   loop 4 invariant chVers(ch, m) && chSuites(ch, m) && chCurves(ch, m)
-//@   loop 4 invariant len(ch.SupportedVersions) == it && fresh(ch.SupportedVersions) && ch.SupportedVersions != nil && sep(ch.SupportedVersions, ch.CipherSuites) && sep(ch.SupportedVersions, ch.SupportedCurves) && sep(ch.SupportedVersions, ch)
-//@   loop 4 invariant forall(k, 0, it, ch.SupportedVersions[k] == TLSVersion(m.supportedVersions[k]))
+//@   loop 4 invariant len(ch.SupportedVersions) == it && cap(ch.SupportedVersions) == len(m.supportedVersions) && fresh(ch.SupportedVersions) && ch.SupportedVersions != nil && sep(ch.SupportedVersions, ch.CipherSuites) && sep(ch.SupportedVersions, ch.SupportedCurves) && sep(ch.SupportedVersions, ch)
 //@   loop 5 invariant 0 <= it && it <= len(m.supportedSignatureAlgorithms)
 //@   loop 5 invariant chRandom(ch, m) && chComp(ch, m) && chPoints(ch, m)
 //@   loop 5 invariant ch.SignatureAndHashes != nil && fresh(ch.SignatureAndHashes) && len(ch.SignatureAndHashes) <= it && sep(ch.SignatureAndHashes, ch) && sep(ch.SignatureAndHashes, ch.Random) && sep(ch.SignatureAndHashes, ch.SessionID) && sep(ch.SignatureAndHashes, ch.CompressionMethods) && sep(ch.SignatureAndHashes, ch.SupportedPoints)
 //@   loop 5 decreases len(m.supportedSignatureAlgorithms) - it
-//@   loop 6 invariant same(m.unknownExtensions, old(m.unknownExtensions)) && same(m.supportedSignatureAlgorithms, old(m.supportedSignatureAlgorithms))
-//@   loop 6 invariant chVers(ch, m) && chRandom(ch, m) && chSuites(ch, m) && chComp(ch, m) && chFlags(ch, m) && chCurves(ch, m) && chPoints(ch, m) && chTicketActual(ch, m) && chAlpn(ch, m)
-//@   loop 6 invariant (len(m.supportedVersions) > 0 ==> chVersions(ch, m)) && (len(m.supportedVersions) == 0 ==> len(ch.SupportedVersions) == 0)
-//@   loop 6 invariant ch.SignatureAndHashes != nil && len(ch.SignatureAndHashes) <= len(m.supportedSignatureAlgorithms)
-//@   loop 6 invariant len(ch.UnknownExtensions) == len(m.unknownExtensions) && ch.UnknownExtensions != nil && fresh(ch.UnknownExtensions) && sep(ch.UnknownExtensions, ch)
+//@   loop 6 invariant same(m.unknownExtensions, old(m.unknownExtensions)) && chLens(m) && chLen(ch, m)
+//@   loop 6 invariant ch.SignatureAndHashes != nil && len(ch.SignatureAndHashes) <= len(m.supportedSignatureAlgorithms) && (ch.SessionTicket != nil ==> len(ch.SessionTicket.Value) == len(m.sessionTicket))
+//@   loop 6 invariant ch.UnknownExtensions != nil && fresh(ch.UnknownExtensions)
 //@   ensures  result != nil && fresh(result)
-//@   ensures  chVers(result, m) && chRandom(result, m) && chSuites(result, m) && chComp(result, m) && chFlags(result, m)
-//@   ensures  chCurves(result, m) && chPoints(result, m) && chAlpn(result, m)
-//@   ensures  (len(m.supportedVersions) > 0 ==> chVersions(result, m)) && (len(m.supportedVersions) == 0 ==> len(result.SupportedVersions) == 0)
+//@   ensures  chVers(result, m) && chFlags(result, m) && chLen(result, m)
 //@   ensures  result.SignatureAndHashes != nil && len(result.SignatureAndHashes) <= len(m.supportedSignatureAlgorithms)
-//@   ensures  len(result.UnknownExtensions) == len(m.unknownExtensions)
-//@   ensures  [actual_ticket_empty] chTicketActual(result, m)
-//@   ensures  [defect_ticket] len(m.sessionTicket) > 0 ==> result.SessionTicket != nil && eq(result.SessionTicket.Value, m.sessionTicket) && result.SessionTicket.Length == len(m.sessionTicket)
-//@   ensures  [defect_ems] result.ExtendedMasterSecret == m.extendedMasterSecret
-//@   ensures  [defect_sctenabled] result.SctEnabled == m.sctEnabled
-//@   ensures  [defect_extrandom] m.extendedRandomEnabled ==> eq(result.ExtendedRandom, m.extendedRandom)
+//@   ensures  [ticket] chTicketRec(result, m)
 //@   modifies all
 //@   terminates
 
 // ---------------------------------------------------------------- tls_handshake.go: ServerHello
 
+// ServerHello as logged (C28 "ServerHello"): every scalar of the log is the message's; Random,
+// SessionID, the SCT list and the unknown-extension list have the message's lengths; the selected
+// version and key-share group of TLS 1.3 are the message's (serverShare.group, else the
+// HelloRetryRequest's selectedGroup).
+// Both loops append / store / copy through a slice header loaded inside the loop: govc forgets
+// the whole `slice`, `bv8` and `loc` components at the first loop head and `slice` at the second.
+// NOT stated (engine, notes L4): eq(result.Random, m.random), eq(result.SessionID, m.sessionId)
+// (established before the first loop, not re-provable across it), byte contents of the SCT and
+// unknown-extension records, ExtensionIdentifiers (extractExtensions has no functional
+// contract). `modifies all` for the same reason (a `forallv` frame as in extractExtensions
+// proves `modifies nothing` here too, but costs 150 s per frame obligation).
+//@ pred shScal(l, m) = l.Version == TLSVersion(m.vers) && l.CipherSuite == CipherSuiteID(m.cipherSuite) && l.CompressionMethod == CompressionMethod(m.compressionMethod) && l.OcspStapling == m.ocspStapling && l.TicketSupported == m.ticketSupported && l.SecureRenegotiation == (m.secureRenegotiationSupported && len(m.secureRenegotiation) > 0)
+//@ pred shComp(l, m) = l.CompressionMethod == CompressionMethod(m.compressionMethod)
+//@ pred shLen(l, m) = len(l.Random) == len(m.random) && len(l.SessionID) == len(m.sessionId)
+// the message's own slice headers, which the loops cannot be seen to preserve
+//@ pred shPinM(m) = same(m.scts, old(m.scts)) && same(m.unknownExtensions, old(m.unknownExtensions)) && len(m.random) == old(len(m.random)) && len(m.sessionId) == old(len(m.sessionId)) && len(m.secureRenegotiation) == old(len(m.secureRenegotiation))
+//@ func (*serverHelloMsg).MakeLog
+//@   requires m != nil && allocated(m.raw) && allocated(m.random) && allocated(m.sessionId) && allocated(m.scts) && allocated(m.unknownExtensions)
+//@   loop 1 invariant 0 <= it && it <= len(m.scts) && shPinM(m) && shComp(sh, m) && shLen(sh, m)
+//@   loop 1 invariant len(sh.SignedCertificateTimestamps) == it && fresh(sh.SignedCertificateTimestamps) && sep(sh.SignedCertificateTimestamps, sh) && sh.SupportedVersions == nil && sh.KeyShare == nil
+//@   loop 2 invariant shPinM(m) && shLen(sh, m)
+//@   loop 2 invariant len(sh.SignedCertificateTimestamps) == len(m.scts) && len(sh.UnknownExtensions) == len(m.unknownExtensions) && sh.UnknownExtensions != nil && fresh(sh.UnknownExtensions)
+//@   ensures  result != nil && fresh(result)
+//@   ensures  shScal(result, m) && result.ExtendedMasterSecret == m.extendedMasterSecret && result.AlpnProtocol == m.alpnProtocol
+//@   ensures  shLen(result, m)
+//@   ensures  len(result.SignedCertificateTimestamps) == len(m.scts) && len(result.UnknownExtensions) == len(m.unknownExtensions)
+//@   ensures  m.supportedVersion != 0 ==> result.SupportedVersions != nil && result.SupportedVersions.SelectedVersion == TLSVersion(m.supportedVersion)
+//@   ensures  m.supportedVersion == 0 ==> result.SupportedVersions == nil && result.KeyShare == nil
+//@   ensures  m.supportedVersion != 0 && m.serverShare.group != 0 ==> result.KeyShare != nil && result.KeyShare.KeyExchange != nil && *result.KeyShare.KeyExchange == m.serverShare.group
+//@   ensures  m.supportedVersion != 0 && m.serverShare.group == 0 && m.selectedGroup != 0 ==> result.KeyShare != nil && result.KeyShare.KeyExchange != nil && *result.KeyShare.KeyExchange == m.selectedGroup
+//@   ensures  m.supportedVersion != 0 && m.serverShare.group == 0 && m.selectedGroup == 0 ==> result.KeyShare == nil
+//@   modifies all
+//@   terminates
+
 // handshake_messages.go: the extension identifiers of the raw ServerHello, in wire order.
 // Stated: no panic on any m.raw, a failed parse yields (nil, false), nothing is written.
 //@ func (*serverHelloMsg).extractExtensions
 //@   requires m != nil && allocated(m.raw)
-//@   loop 1 invariant fresh(extensionIdentifiers) && extensionIdentifiers != nil && samebase(extensions, m.raw)
+//@   loop 1 invariant fresh(extensionIdentifiers) && extensionIdentifiers != nil && samebase(extensions, old(m.raw))
+//@   loop 1 invariant forallv(p, *uint16, old(allocated(p)) ==> *p == old(*p))
+//@   loop 1 invariant forallv(p, *[]byte, old(allocated(p)) ==> same(*p, old(*p)))
 //@   loop 1 decreases len(extensions)
 //@   ensures  !result1 ==> result0 == nil
 //@   ensures  result1 ==> result0 != nil && fresh(result0)
